@@ -71,6 +71,10 @@ def run(tier):
     raw = run_conditions(conds, 90 if tier == 'quick' else 600)
     obs, _ = to_obligations('C14', conds, raw)
     concrete_reach(conds, obs)
+    from .chrun import boundary_probe
+    for c in conds:
+        c.extra_samples = [[2 ** 64, 2 ** 53 + 1, 7], [2 ** 63 + 1, 3, 2 ** 64 - 1], [2 ** 53 + 1, 2 ** 62 + 3, 5], [0xFFFFFFFFFFFFFFFF, 0xFF, 1], [-(2 ** 63), -1, -7]]
+    boundary_probe('C14', conds, obs)
     n_conc, bad = concrete_literals()
     errors = []
     extra = dict(concrete_side_check=dict(what='C++ _to_literal / Python translate_constant read back on boundary values (enumeration, not solver-decided)',
